@@ -3,6 +3,7 @@
      kinv <g> <tol> <fuel> <n> (w d)*      -> flag n k_1 .. k_n
      kin  <g> <n> (k d)*                   -> n (omega n_ratio cg n_exact)*
      guess <g> <n> (w d)*                  -> n guess*
+     trace <g> <fuel> <n> (w d)*           -> fuel maxrelerr_1 .. maxrelerr_fuel
      spec <g> <nf> f* <nd> d*              -> flag n (k wavelength wave_speed cg)* *)
 let rd_depth () : depth =
   let x = rd_float () in
@@ -26,6 +27,21 @@ let handle cmd =
       let g = rd_float () in
       let ps = rd_pairs () in
       plist (fun (w, d) -> pf (guess g w d)) ps
+  | "trace" ->
+      (* per iteration: max over the batch of |omega(k)-w|/w  (harness uses it to recognise
+         convergence tests decided within rounding error of the tolerance) *)
+      let g = rd_float () in let fuel = rd_int () in
+      let ps = rd_pairs () in
+      let ks = ref (guesses g ps) in
+      let outl = ref [] in
+      for _ = 1 to fuel do
+        ks := zipstep g ps !ks;
+        let m = List.fold_left2 (fun acc (w, d) k ->
+                   let e = abs_float (omega g k d -. w) /. w in
+                   if Float.is_nan e then infinity else if e > acc then e else acc) 0.0 ps !ks in
+        outl := m :: !outl
+      done;
+      plist pf (List.rev !outl)
   | "spec" ->
       let g = rd_float () in
       let fs = rd_list rd_float in
